@@ -158,6 +158,22 @@ def _cov_start():
     return cov
 
 
+def _raised_in_impl(e):
+    """'jsonpath/x.py:123' when the innermost frame of the traceback is implementation code, else None."""
+    tb = e.__traceback__
+    last = None
+    while tb is not None:
+        last = tb
+        tb = tb.tb_next
+    if last is None:
+        return None
+    fn = last.tb_frame.f_code.co_filename
+    root = os.path.join(os.path.realpath(REPO), "jsonpath") + os.sep
+    if os.path.realpath(fn).startswith(root):
+        return "jsonpath/%s:%d" % (os.path.realpath(fn)[len(root):], last.tb_lineno)
+    return None
+
+
 def _worker(shard):
     t0 = time.time()
     acc = Acc()
@@ -171,6 +187,15 @@ def _worker(shard):
             # terminate within the budget. Reported as a violation of the property (no result was produced).
             acc.violation("runner", "shard-timeout", {"shard": list(shard) if isinstance(shard, tuple) else shard},
                           expected="shard explored within %d s of CPU time" % SHARD_BUDGET_S, observed="CPU budget exceeded")
+        except Exception as e:  # noqa: BLE001
+            where = _raised_in_impl(e)
+            if where is None:
+                raise
+            # an exception raised inside the implementation at a call the check makes unguarded, i.e. where the
+            # unchanged tree always returns: the exploration stopped there. A verdict, not a harness error.
+            acc.violation("runner", "escaped-exception", {"shard": list(shard) if isinstance(shard, tuple) else shard},
+                          expected="every execution of the shard returns to the check",
+                          observed="%s: %s (raised at %s)" % (type(e).__name__, e, where))
         minimise_all(_MOD, acc)
     except Exception:  # harness problem, not a verdict
         return dict(error="shard %r: %s" % (shard, traceback.format_exc()))
@@ -213,6 +238,12 @@ def check_one(mod, sub, case):
                 mod.run_shard(shard, Acc())
         except BudgetExceeded:
             acc.violation("runner", "shard-timeout", case, expected="terminates", observed="CPU budget exceeded")
+        except Exception as e:  # noqa: BLE001
+            where = _raised_in_impl(e)
+            if where is None:
+                raise
+            acc.violation("runner", "escaped-exception", case, expected="every execution of the shard returns to the check",
+                          observed="%s: %s (raised at %s)" % (type(e).__name__, e, where))
         return acc.viol[0] if acc.viol else None
     mod.check_case(sub, case, acc)
     return acc.viol[0] if acc.viol else None
